@@ -1,8 +1,9 @@
 import DoviModel.Model.Editor
 import DoviModel.Proofs.EditGenProof
+import DoviModel.Proofs.EditorOpsProof
 /-! # C09 — the RPU editor applies exactly the configured edits to exactly the configured frames -/
 namespace Dovi.C09
-open Dovi Dovi.Editor Dovi.EditGenProof
+open Dovi Dovi.Editor Dovi.EditGenProof Dovi.EditorOpsProof
 
 /-- the empty config does nothing before encoding: every frame is kept, in order -/
 theorem execute_empty (rpus : List (Option Rpu)) : execute {} rpus = .ok rpus := by
@@ -71,8 +72,9 @@ theorem duplicate_length (src off len : Nat) (rest : List (Nat × Nat × Nat)) (
 /-- **edit_length** — a successful run of the editor writes exactly `input − removed + duplicated` NALs, where
 `removed` is the number of distinct in-range positions listed in `remove` (`removedCount`) and `duplicated` the sum
 of the `length` fields of the `duplicate` entries (`dupTotal`): no frame disappears silently. For every config and
-every input list (the model's encoder fails as a whole when one RPU cannot be written; see the report for the
-`filter_map(Result::ok)` in the real encoder). -/
+every input list. (A frame whose RPU cannot be written makes the whole run fail — `Editor::edit` collects the
+writes into a `Result` — so it cannot be dropped from a successful run either; `edit c rpus = .ok out` is the
+hypothesis, and `edit` is `.error` in that case.) -/
 theorem edit_length (c : Config) (rpus : List Rpu) (out : List Bytes) (h : edit c rpus = .ok out) :
     out.length = rpus.length - removedCount (c.remove.getD []) rpus.length + dupTotal (c.duplicate.getD []) := by
   have h1 := edit_length_add c rpus out h
@@ -87,11 +89,30 @@ theorem execute_keeps_frames (c : Config) (l out : List (Option Rpu)) (h : execu
   have := execute_shape c l out h
   exact ⟨this.1, fun j x hx => by simpa using this.2 j x hx⟩
 
-/-- non-vacuity: a three-frame list, frame 1 removed, frame 0 duplicated twice at the end: 3 − 1 + 2 = 4 -/
+/-- a writable RPU: the generator's profile 8.1 CM v4.0 base RPU (the same value as `Dovi.C03.exRpu`) -/
+def exRpu : Rpu :=
+  match Dovi.Gen.baseRpu { level6 := some [1000, 1, 1000, 400] } with
+  | .ok r => r
+  | _ => default
+
+/-- non-vacuity of `edit_length`, on the real hypothesis `edit c rpus = .ok out`: three writable frames, frame 1
+removed, frame 0 duplicated twice at offset 2: the editor succeeds and writes 3 − 1 + 2 = 4 NALs -/
 example :
     let c : Config := { remove := some ["1"], duplicate := some [(0, 2, 2)] }
-    removedCount (c.remove.getD []) 3 = 1 ∧ dupTotal (c.duplicate.getD []) = 2 ∧
-    (execute c [some {}, some {}, some {}]).isOk = true := by decide
+    ∃ out, edit c [exRpu, exRpu, exRpu] = .ok out ∧ out.length = 4 ∧
+      removedCount (c.remove.getD []) 3 = 1 ∧ dupTotal (c.duplicate.getD []) = 2 := by
+  intro c
+  have hok : (edit c [exRpu, exRpu, exRpu]).isOk = true := by decide
+  cases he : edit c [exRpu, exRpu, exRpu] with
+  | ok out =>
+    have hl := edit_length c [exRpu, exRpu, exRpu] out he
+    have h1 : removedCount (c.remove.getD []) 3 = 1 := by decide
+    have h2 : dupTotal (c.duplicate.getD []) = 2 := by decide
+    refine ⟨out, rfl, ?_, h1, h2⟩
+    rw [show [exRpu, exRpu, exRpu].length = 3 from rfl, h1, h2] at hl
+    omega
+  | error => rw [he] at hok; cases hok
+  | panic => rw [he] at hok; cases hok
 
 /-! ## (d) invalid input is an error, never a panic -/
 
@@ -353,6 +374,118 @@ example :
       { vdr_dm_data := some { cmv29 := some { num_ext_blocks := 1, blocks := [{ level := 5, length := 7, vals := [v, v, v, v] }] } } }
     let c : Config := { remove := some ["0"], source := some [f 1, f 2], levels := some [5] }
     execute c [some (f 0), some (f 0)] = .error := by decide
+
+/-- **execute_with_source** — the whole `execute` for a config with `source_rpu = src`, frame by frame
+(`edit_semantics` composed with `source_alignment`): it succeeds only with a level list and only when the number of
+frames that remain (present and not listed in `remove`, `keptBefore … l.length`) equals `src.length`; position `j`
+is empty iff it was empty or removed; otherwise it holds `frameSem c j r` (per-frame operations, then scene cuts,
+then active area) with the listed levels replaced from source entry `keptBefore … j` — the number of remaining
+frames before `j` -/
+theorem execute_with_source (c : Config) (src : List Rpu) (hs : c.source = some src) (l out : List (Option Rpu))
+    (h : execute c l = .ok out) :
+    ∃ lv, c.levels = some lv ∧ out.length = l.length ∧
+      keptBefore (c.remove.getD []) l l.length = src.length ∧
+      ∀ (j : Nat) (x : Option Rpu), l[j]? = some x →
+        (removed (c.remove.getD []) j = true → out[j]? = some none) ∧
+        (x = none → out[j]? = some none) ∧
+        (removed (c.remove.getD []) j = false → ∀ r, x = some r →
+           ∃ r1 s r', frameSem c j r = .ok r1 ∧ src[keptBefore (c.remove.getD []) l j]? = some s ∧
+             r1.replaceLevelsFrom s lv = .ok r' ∧ out[j]? = some (some r')) :=
+  EditorOpsProof.execute_with_source c src hs l out h
+
+/-- the exact success condition of the source pass: `execute` without the source, the length check on the frames
+that remain, the level list, `replace_from_rpus` -/
+theorem execute_source_iff (c : Config) (src : List Rpu) (hs : c.source = some src) (l out : List (Option Rpu)) :
+    execute c l = .ok out ↔
+      ∃ mid lv, execute (noSource c) l = .ok mid ∧ mid.countP Option.isSome = src.length ∧ c.levels = some lv ∧
+        replaceFromSource lv mid src = .ok out :=
+  execute_source_split c src hs l out
+
+/-! ## untouched parts of a touched frame: what each per-frame operation keeps
+
+`RpuKept r r'`: profile, el_type, header, mapping, unparsed remainder, CRC field and trailing zeroes are equal (only
+`modified` and the DM data may differ). `DmOfKept r r' lv`: `r'` has DM data iff `r` has, and its DM data is that of
+`r` up to the blocks of level `lv` (`DmKept`: same `main`, scene flag, ids, `compressed`, the same containers
+present, and for every other level the same blocks — as a multiset, because a touched container is re-sorted). -/
+
+/-- **level6 / level9 / level11 / level255** — `executeSingle` applies `replaceIfDm r b _` with `b` the L6 / L9 / L11
+/ L255 block of the config: only the blocks of that level can change -/
+theorem level_replacement_keeps (r r' : Rpu) (b : Block) (a : Bool) (h : replaceIfDm r b a = .ok r') :
+    RpuKept r r' ∧ DmOfKept r r' b.level :=
+  replaceIfDm_kept r r' b a h
+
+/-- … and the new block is then the only block of its level (levels 6, 9, 11, 255 are not keyed; the level's
+container must exist — otherwise the operation is a silent no-op) -/
+theorem level_replacement_stores (r r' : Rpu) (b : Block) (a : Bool) (h : replaceIfDm r b a = .ok r') (d : DmData)
+    (hd : r.vdr_dm_data = some d) (hk : Gen.keyed b.level = false) (hh : Gen.holds d b.level) :
+    ∃ d', r'.vdr_dm_data = some d' ∧ d'.levelBlocks b.level = [b] :=
+  replaceIfDm_stored r r' b a h d hd hk hh
+
+/-- the DM-data core of the above: `replace_metadata_block` touches only its own level (any block, keyed or not) -/
+theorem replace_block_keeps (d d' : DmData) (b : Block) (h : d.replaceBlock b = .ok d') : DmKept d d' b.level :=
+  replaceBlock_kept d d' b h
+
+/-- **crop** and the **active-area presets**: only the L5 block can change -/
+theorem crop_keeps (r r' : Rpu) (h : r.crop = .ok r') : RpuKept r r' ∧ DmOfKept r r' 5 := crop_kept r r' h
+
+theorem preset_keeps (r r' : Rpu) (p : Preset) (h : setOffsets r p = .ok r') : RpuKept r r' ∧ DmOfKept r r' 5 :=
+  setOffsets_kept r r' p h
+
+/-- **drop_l5**: only the L5 blocks go, and they are gone -/
+theorem drop_l5_keeps (r : Rpu) (d : DmData) (hd : r.vdr_dm_data = some d) :
+    let r' : Rpu := { r with modified := true, vdr_dm_data := some (d.removeLevel 5) }
+    RpuKept r r' ∧ DmOfKept r r' 5 ∧ (d.removeLevel 5).levelBlocks 5 = [] :=
+  dropL5_kept r d hd
+
+/-- **min_pq / max_pq**: every block, both containers and every DM field other than entries 29 / 30 of `main`
+(`source_min_pq`, `source_max_pq`) are kept (the RPU fields outside the DM data are kept by construction:
+`executeSingle` builds `{ r with modified := true, vdr_dm_data := … }`) -/
+theorem source_levels_keep (d : DmData) (a b : Option Nat) :
+    (d.changeSourceLevels a b).cmv29 = d.cmv29 ∧ (d.changeSourceLevels a b).cmv40 = d.cmv40 ∧
+    (d.changeSourceLevels a b).scene_refresh_flag = d.scene_refresh_flag ∧
+    (d.changeSourceLevels a b).compressed = d.compressed ∧
+    (d.changeSourceLevels a b).affected_dm_metadata_id = d.affected_dm_metadata_id ∧
+    (d.changeSourceLevels a b).current_dm_metadata_id = d.current_dm_metadata_id ∧
+    (d.changeSourceLevels a b).main.length = d.main.length ∧
+    ∀ j, j ≠ 29 → j ≠ 30 → (d.changeSourceLevels a b).main[j]? = d.main[j]? :=
+  changeSourceLevels_kept d a b
+
+/-- **remove_mapping**: the DM data, the header, the profile and the remainder are kept; a mapping stays a mapping -/
+theorem remove_mapping_keeps (r : Rpu) :
+    r.removeMapping.vdr_dm_data = r.vdr_dm_data ∧ r.removeMapping.header = r.header ∧
+    r.removeMapping.dovi_profile = r.dovi_profile ∧ r.removeMapping.el_type = r.el_type ∧
+    r.removeMapping.remaining = r.remaining ∧ r.removeMapping.trailing_zeroes = r.trailing_zeroes ∧
+    r.removeMapping.rpu_data_mapping.isSome = r.rpu_data_mapping.isSome :=
+  removeMapping_kept r
+
+/-- **remove_cmv4**: only the CM v4.0 container goes -/
+theorem remove_cmv4_keeps (r : Rpu) :
+    RpuKept r r.removeCmv40 ∧
+    match r.vdr_dm_data with
+    | none => r.removeCmv40.vdr_dm_data = none
+    | some d => r.removeCmv40.vdr_dm_data = some { d with cmv40 := none } :=
+  removeCmv40_kept r
+
+/-- **mode** (any conversion mode): both block containers, the scene flag, the DM ids, the entries of `main` from
+`signal_eotf` on except the colour-space entry (so in particular the source levels), and the unparsed remainder,
+CRC field and trailing zeroes are kept (`ModeKept`, `DmBlocksSame`) -/
+theorem mode_keeps (r r' : Rpu) (m : Mode) (h : r.convertWithMode m = .ok r') : ModeKept r r' :=
+  convertWithMode_kept r r' m h
+
+/-- **the per-frame pass as a whole** (`execute_single_rpu`, every config, all operations composed): the frame keeps
+its unparsed remainder, CRC field and trailing zeroes, and it has DM data afterwards iff it had before
+(`Skeleton`) — no per-frame operation creates or deletes the DM data -/
+theorem per_frame_pass_keeps (c : Config) (r r' : Rpu) (h : executeSingle c r = .ok r') : Skeleton r r' :=
+  executeSingle_skeleton c r r' h
+
+/-- non-vacuity: replacing L6 on the writable example frame keeps its L5, L9, L11, L254 blocks -/
+example : ∃ r', replaceIfDm exRpu { level := 6, length := 8, vals := [4000, 50, 0, 0] } true = .ok r' ∧
+    RpuKept exRpu r' := by
+  have hok : (replaceIfDm exRpu { level := 6, length := 8, vals := [4000, 50, 0, 0] } true).isOk = true := by decide
+  cases he : replaceIfDm exRpu { level := 6, length := 8, vals := [4000, 50, 0, 0] } true with
+  | ok r' => exact ⟨r', rfl, (level_replacement_keeps _ _ _ _ he).1⟩
+  | error => rw [he] at hok; cases hok
+  | panic => rw [he] at hok; cases hok
 
 /-- `Plain` is satisfiable by a non-trivial config: remove + range scene cuts + range active-area edits + duplicate -/
 example : Plain { remove := some ["0", "3-4"], sceneCuts := some [("1-2", true)], hasActiveArea := true,
